@@ -89,6 +89,45 @@ pub fn c01(ctx: &Ctx) -> PropResult {
     }
 }
 
+/// user procedures called from loop headers while BREAK / CONTINUE / RETURN of the loop are in play: the call runs its
+/// body as anywhere else (a pending control flag of the caller's loop is not the callee's business)
+pub fn effectful_header_family() -> Vec<String> {
+    let mut out = vec![];
+    let probe = "PROCEDURE probe(v) {\nDISPLAY(\"header\")\nREPEAT 1 TIMES {\nDISPLAY(\"in probe loop\")\n}\nRETURN v\n}\n";
+    for ctl in ["CONTINUE", "BREAK", "k <- k"] {
+        for at in 1..4 {
+            out.push(format!("{probe}k <- 0\nREPEAT UNTIL (probe(k >= 3)) {{\nk <- k + 1\nDISPLAY(k)\nIF (k == {at}) {{\n{ctl}\n}}\nDISPLAY(\"tail\")\n}}\nDISPLAY(k)\n"));
+            out.push(format!("{probe}k <- 0\nFOR EACH e IN [1, 2, 3] {{\nk <- k + 1\nIF (k == {at}) {{\n{ctl}\n}}\nREPEAT probe(1) TIMES {{\nDISPLAY(e)\n}}\n}}\nDISPLAY(k)\n"));
+            out.push(format!("{probe}PROCEDURE f() {{\nk <- 0\nREPEAT UNTIL (probe(k >= 3)) {{\nk <- k + 1\nIF (k == {at}) {{\n{ctl}\n}}\nIF (probe(k) == 2) {{\nRETURN probe(\"ret\")\n}}\n}}\nRETURN k\n}}\nDISPLAY(f())\n"));
+        }
+    }
+    out
+}
+
+/// the caller, the global scope and an outer recursive activation hold variables with the names the callee uses
+/// (scalars and lists): the callee can neither read nor change them, and its own vanish
+pub fn scope_family() -> Vec<String> {
+    let mut out = vec![];
+    let callee_bodies = [
+        "acc <- [n]\nAPPEND(acc, 0)\nRETURN acc\n",
+        "acc <- n\nRETURN acc\n",
+        "RETURN acc\n",
+        "APPEND(acc, n)\nRETURN 0\n",
+        "acc <- [n] + [n]\nother <- acc\nAPPEND(other, 1)\nRETURN acc\n",
+        "acc[1] <- n\nRETURN 0\n",
+    ];
+    for body in callee_bodies {
+        for caller_acc in ["acc <- [100, 200]", "acc <- 7", "acc <- \"text\"", ""] {
+            // called from the top level, from another procedure that has `acc`, and recursively
+            out.push(format!("PROCEDURE callee(n) {{\n{body}}}\n{caller_acc}\nr <- callee(1)\nDISPLAY(r)\nr2 <- callee(2)\nDISPLAY(r)\nDISPLAY(r2)\nDISPLAY(acc)\n"));
+            out.push(format!("PROCEDURE callee(n) {{\n{body}}}\nPROCEDURE outer() {{\n{caller_acc}\nr <- callee(1)\nDISPLAY(r)\nDISPLAY(acc)\nRETURN r\n}}\nDISPLAY(outer())\nDISPLAY(acc)\n"));
+        }
+    }
+    out.push("PROCEDURE rec(n) {\nacc <- [n]\nIF (n > 0) {\nrec(n - 1)\n}\nDISPLAY(acc)\nRETURN acc\n}\nacc <- [\"global\"]\nDISPLAY(rec(3))\nDISPLAY(acc)\n".to_string());
+    out.push("PROCEDURE rec(n) {\nIF (n > 0) {\nacc <- [n]\nrec(n - 1)\nDISPLAY(acc)\n}} ELSE {{\nDISPLAY(acc)\n}}\n}\nrec(2)\n".replace("{{", "{").replace("}}", "}"));
+    out
+}
+
 /// no panic, and for cases tagged `bare-return-newline` / `newline-twin`: the twin program in `aux` (an explicit `;`
 /// where the case has a newline) behaves identically on the implementation
 pub fn newline_twin_oracle(case: &Case, out: &Outcome) -> Result<bool, String> {
@@ -303,6 +342,18 @@ pub fn c02(ctx: &Ctx) -> PropResult {
     }
     // loop headers are evaluated as the property says: the count once, the UNTIL condition before every iteration,
     // the FOR EACH collection once
+    for src in effectful_header_family() {
+        cases.push(run_case(src, "effectful-loop-header"));
+    }
+    // IF / ELSE IF / ELSE chains whose conditions have effects: evaluated in order up to the first truthy one, exactly
+    // the selected branch runs
+    for a in ["TRUE", "FALSE", "0", "\"\"", "NULL", "7"] {
+        for b in ["TRUE", "FALSE", "NULL", "1"] {
+            for c in ["TRUE", "FALSE"] {
+                cases.push(run_case(format!("PROCEDURE c(k, v) {{\nDISPLAY(k)\nRETURN v\n}}\nIF (c(1, {a})) {{\nDISPLAY(\"A\")\n}} ELSE IF (c(2, {b})) {{\nDISPLAY(\"B\")\n}} ELSE IF (c(3, {c})) {{\nDISPLAY(\"C\")\n}} ELSE {{\nDISPLAY(\"D\")\n}}\nIF (c(4, {a})) {{\nDISPLAY(\"E\")\n}} ELSE IF (c(5, {b})) {{\nDISPLAY(\"F\")\n}}\nDISPLAY(\"end\")\n"), "else-if-chain"));
+            }
+        }
+    }
     for (head, tail) in [
         ("REPEAT probe(2) TIMES {", "}"),
         ("REPEAT probe(0) TIMES {", "}"),
@@ -469,6 +520,12 @@ pub fn c03(ctx: &Ctx) -> PropResult {
             cases.push(run_case(src, "activation-independence"));
         }
     }
+    for src in scope_family() {
+        cases.push(run_case(src, "scope-isolation"));
+    }
+    for src in effectful_header_family() {
+        cases.push(run_case(src, "call-from-loop-header"));
+    }
     // arguments left to right, each once, bound by value at the moment they are evaluated
     for src in operand_order_family() {
         if src.contains("f3(") {
@@ -542,6 +599,9 @@ pub fn c04(ctx: &Ctx) -> PropResult {
         }
         cases.push(run_case(src, "history"));
     }
+    for src in scope_family() {
+        cases.push(run_case(src, "scope-isolation"));
+    }
     // every evaluation of a list-producing expression yields a new list: evaluated twice (loop, procedure called
     // twice), the first result changed, both displayed
     for e in ["[0, 0]", "[]", "[1]", "[x, 0]", "[[0]]", "base + [1]", "[] + []", "mk()", "[\"a\", TRUE, NULL]"] {
@@ -592,6 +652,29 @@ pub fn c05(ctx: &Ctx) -> PropResult {
             trees.push(PExpr::Index(Box::new(PExpr::Leaf("lst".into())), Box::new(PExpr::Bin(op1, l(0), l(1)))));
             trees.push(PExpr::Bin(op1, Box::new(PExpr::Index(Box::new(PExpr::Leaf("lst".into())), l(0))), l(1)));
             trees.push(PExpr::Bin(op1, Box::new(PExpr::Assign("w1".into(), l(0))), l(1)));
+            // indexed assignment: same level as assignment, groups to the right, value is any expression
+            trees.push(PExpr::Assign("lst[1]".into(), Box::new(PExpr::Bin(op1, l(0), Box::new(PExpr::Un(un, l(1)))))));
+            trees.push(PExpr::Bin(op1, Box::new(PExpr::Assign("lst[2]".into(), l(0))), l(1)));
+        }
+    }
+    {
+        let l = |i: usize| Box::new(PExpr::Leaf(leaves[i].to_string()));
+        // chains of assignments with variable and indexed targets in every order
+        for t1 in ["w0", "lst[1]"] {
+            for t2 in ["w1", "lst[2]"] {
+                trees.push(PExpr::Assign(t1.into(), Box::new(PExpr::Assign(t2.into(), l(0)))));
+                for t3 in ["w0", "lst[3]"] {
+                    trees.push(PExpr::Assign(t1.into(), Box::new(PExpr::Assign(t2.into(), Box::new(PExpr::Assign(t3.into(), l(1)))))));
+                }
+                trees.push(PExpr::Assign(t1.into(), Box::new(PExpr::Bin("OR", Box::new(PExpr::Assign(t2.into(), l(0))), l(1)))));
+            }
+        }
+        // a + b * c and friends with every pair of arithmetic operators (rounding-sensitive valuations exist)
+        for o1 in ["+", "-"] {
+            for o2 in ["*", "/"] {
+                trees.push(PExpr::Bin(o1, l(0), Box::new(PExpr::Bin(o2, l(1), l(2)))));
+                trees.push(PExpr::Bin(o1, Box::new(PExpr::Bin(o2, l(0), l(1))), l(2)));
+            }
         }
     }
     if !ctx.quick() {
@@ -616,7 +699,7 @@ pub fn c05(ctx: &Ctx) -> PropResult {
         let mut leaf = 0;
         trees.push(random_pexpr(&mut rng, &mut ops, &mut leaf));
     }
-    let per_tree = if ctx.quick() { 3 } else { 8 };
+    let per_tree = VALUATIONS.len(); // every tree under every valuation
     for (ti, t) in trees.iter().enumerate() {
         let min = t.render_min();
         let full = t.render_full();
